@@ -177,6 +177,63 @@ pub fn shadowed_global_occurrence(prog: &Prog, tok: &splgen::render::Tok) -> boo
     is_global && prog.procs[p].params.iter().chain(prog.procs[p].locals.iter()).any(|v| v.name == tok.text)
 }
 
+/// every identifier, keyword, number and comment is reported, with the kind of its binding
+pub fn check_classification(prog: &Prog, rendered: &Rendered, laid: &Laid, toks: &[Decoded], r: &mut CaseResult) {
+    let text = &laid.text;
+        // every identifier, keyword, number and comment is reported, with the kind of its binding
+        let by_offset: std::collections::HashMap<usize, &Decoded> = toks.iter().map(|t| (lsp::offset_of(text, t.pos), t)).collect();
+        for (i, tok) in rendered.toks.iter().enumerate() {
+            let off = laid.ranges[i].start;
+            let got = by_offset.get(&off);
+            let (want_kind, want_decl): (&str, bool) = match &tok.role {
+                Role::Other => match tok.class {
+                    splgen::render::TokClass::Keyword => ("keyword", false),
+                    splgen::render::TokClass::Number => ("number", false),
+                    _ => continue,
+                },
+                Role::Decl(b) | Role::Use(b) => {
+                    let k = match b {
+                        Bind::Type(_) | Bind::BuiltinInt => "type",
+                        Bind::Proc(_) | Bind::BuiltinProc(_) => "function",
+                        Bind::Param(..) => "parameter",
+                        Bind::Local(..) => "variable",
+                        Bind::Unbound => continue,
+                    };
+                    (k, matches!(tok.role, Role::Decl(_)))
+                }
+            };
+            let shadowed = shadowed_global_occurrence(prog, tok);
+            let ok = matches!(got, Some(g) if g.kind == want_kind && g.declaration == want_decl);
+            if !ok {
+                let what = format!(
+                    "`{}` at byte {} ({:?}) should be {}{}, reported {:?}",
+                    tok.text,
+                    off,
+                    tok.role,
+                    want_kind,
+                    if want_decl { " + declaration" } else { "" },
+                    got.map(|g| (g.kind.clone(), g.declaration))
+                );
+                if shadowed {
+                    r.fail("shadowed-global-occurrence", what, json!({ "text": text }));
+                } else {
+                    r.fail(format!("misclassified|{}{}", want_kind, if want_decl { "+declaration" } else { "" }), what, json!({ "text": text }));
+                }
+            } else if shadowed {
+                r.label("shadowed-global-occurrence-correct");
+            }
+        }
+        // comments
+        // (comments behind the last token belong to no declaration: whether they must be reported
+        // is not stated, so they are not demanded)
+        let n_gaps = laid.gap_comments.len();
+        for gc in laid.gap_comments.iter().take(n_gaps - 1).flatten() {
+            if !matches!(by_offset.get(&gc.1.start), Some(g) if g.kind == "comment") {
+                r.fail("comment-not-reported", format!("the comment at byte {} is not reported as comment", gc.1.start), json!({ "text": text }));
+            }
+        }
+}
+
 impl Check for Classification {
     fn part(&self) -> &'static str {
         "classification-of-valid-programs"
@@ -211,58 +268,7 @@ impl Check for Classification {
             r.fail("malformed-tokens", e, json!({ "text": text }));
             return r;
         }
-        // every identifier, keyword, number and comment is reported, with the kind of its binding
-        let by_offset: std::collections::HashMap<usize, &Decoded> = toks.iter().map(|t| (lsp::offset_of(text, t.pos), t)).collect();
-        for (i, tok) in rendered.toks.iter().enumerate() {
-            let off = laid.ranges[i].start;
-            let got = by_offset.get(&off);
-            let (want_kind, want_decl): (&str, bool) = match &tok.role {
-                Role::Other => match tok.class {
-                    splgen::render::TokClass::Keyword => ("keyword", false),
-                    splgen::render::TokClass::Number => ("number", false),
-                    _ => continue,
-                },
-                Role::Decl(b) | Role::Use(b) => {
-                    let k = match b {
-                        Bind::Type(_) | Bind::BuiltinInt => "type",
-                        Bind::Proc(_) | Bind::BuiltinProc(_) => "function",
-                        Bind::Param(..) => "parameter",
-                        Bind::Local(..) => "variable",
-                        Bind::Unbound => continue,
-                    };
-                    (k, matches!(tok.role, Role::Decl(_)))
-                }
-            };
-            let shadowed = shadowed_global_occurrence(&prog, tok);
-            let ok = matches!(got, Some(g) if g.kind == want_kind && g.declaration == want_decl);
-            if !ok {
-                let what = format!(
-                    "`{}` at byte {} ({:?}) should be {}{}, reported {:?}",
-                    tok.text,
-                    off,
-                    tok.role,
-                    want_kind,
-                    if want_decl { " + declaration" } else { "" },
-                    got.map(|g| (g.kind.clone(), g.declaration))
-                );
-                if shadowed {
-                    r.fail("shadowed-global-occurrence", what, json!({ "text": text }));
-                } else {
-                    r.fail(format!("misclassified|{}{}", want_kind, if want_decl { "+declaration" } else { "" }), what, json!({ "text": text }));
-                }
-            } else if shadowed {
-                r.label("shadowed-global-occurrence-correct");
-            }
-        }
-        // comments
-        // (comments behind the last token belong to no declaration: whether they must be reported
-        // is not stated, so they are not demanded)
-        let n_gaps = laid.gap_comments.len();
-        for gc in laid.gap_comments.iter().take(n_gaps - 1).flatten() {
-            if !matches!(by_offset.get(&gc.1.start), Some(g) if g.kind == "comment") {
-                r.fail("comment-not-reported", format!("the comment at byte {} is not reported as comment", gc.1.start), json!({ "text": text }));
-            }
-        }
+        check_classification(&prog, &rendered, &laid, &toks, &mut r);
         let multi_line = text.lines().count() > 1;
         r.nontrivial = prog.order.len() >= 2 && (laid.n_comments > 0 || multi_line);
         r
@@ -272,10 +278,143 @@ impl Check for Classification {
     }
 }
 
+/// Engine B: the stream the real binary sends, decoded against the legend announced in ITS answer
+/// to `initialize` (the client announces varying semantic token capabilities), on valid programs
+/// (classification) and on blank / punctuation-only / arbitrary documents (well-formedness).
+pub struct AnnouncedLegend;
+
+const STANDARD_TYPES: [&str; 23] = [
+    "namespace", "type", "class", "enum", "interface", "struct", "typeParameter", "parameter", "variable", "property", "enumMember", "event", "function", "method", "macro", "keyword", "modifier", "comment", "string", "number", "regexp", "operator", "decorator",
+];
+const STANDARD_MODIFIERS: [&str; 10] = ["declaration", "definition", "readonly", "static", "deprecated", "abstract", "async", "modification", "documentation", "defaultLibrary"];
+
+struct LegendCase {
+    caps: Value,
+    caps_label: &'static str,
+    text: String,
+    valid: Option<(Prog, Rendered, Laid)>,
+}
+
+fn decode_legend_case(bytes: &[u8]) -> LegendCase {
+    let mut s = Src::new(bytes);
+    let (caps, caps_label) = match s.below(4) {
+        0 => (json!({}), "no-semantic-token-capabilities"),
+        1 => (json!({ "textDocument": { "semanticTokens": { "requests": { "full": true }, "tokenTypes": STANDARD_TYPES, "tokenModifiers": STANDARD_MODIFIERS, "formats": ["relative"] } } }), "all-standard-types"),
+        _ => {
+            let types: Vec<&str> = STANDARD_TYPES.iter().filter(|_| s.chance(1, 2)).cloned().collect();
+            let mods: Vec<&str> = STANDARD_MODIFIERS.iter().filter(|_| s.chance(1, 2)).cloned().collect();
+            (json!({ "textDocument": { "semanticTokens": { "requests": { "full": true }, "tokenTypes": types, "tokenModifiers": mods, "formats": ["relative"] } } }), "subset-of-standard-types")
+        }
+    };
+    if s.chance(1, 5) {
+        let text = match s.below(3) {
+            0 => s.pick(&["", "\n", "  ", "\n\n  \t", "\r\n", ";", "();", "{ } ( ) ;", ":= < >", "\n;\n"]).to_string(),
+            _ => text::gen_document(&mut s, &GenCfg { max_decls: 4, budget: 80, ..GenCfg::default() }).1,
+        };
+        return LegendCase { caps, caps_label, text, valid: None };
+    }
+    let prog = gen_prog(&mut s, &GenCfg { max_decls: 6, budget: 120, ..GenCfg::default() });
+    let r = render(&prog);
+    let style = *s.pick(&[Style::Commented, Style::Spaced, Style::Plain, Style::LeadingComments]);
+    let l = gen_layout(&r.toks, &mut s, style);
+    let laid = lay(&r.toks, &l);
+    LegendCase { caps, caps_label, text: laid.text.clone(), valid: Some((prog, r, laid)) }
+}
+
+impl Check for AnnouncedLegend {
+    fn part(&self) -> &'static str {
+        "binary-stream-against-announced-legend"
+    }
+    fn max_len(&self) -> usize {
+        2000
+    }
+    fn shrink_iters(&self) -> u32 {
+        300
+    }
+    fn run(&self, bytes: &[u8]) -> CaseResult {
+        use crate::session::{self, RunOpts};
+        let case = decode_legend_case(bytes);
+        let mut r = CaseResult::new(fnv(case.text.as_bytes()) ^ fnv(case.caps.to_string().as_bytes()));
+        r.label(case.caps_label);
+        let uri = "file:///w/c15.spl";
+        let msgs = vec![
+            session::request(1, "initialize", json!({ "capabilities": case.caps })),
+            session::notification("initialized", json!({})),
+            session::notification("textDocument/didOpen", json!({ "textDocument": { "uri": uri, "languageId": "spl", "version": 1, "text": case.text } })),
+            session::request(2, "textDocument/semanticTokens/full", json!({ "textDocument": { "uri": uri } })),
+            session::request(3, "shutdown", Value::Null),
+            session::notification("exit", Value::Null),
+        ];
+        let chunks = session::one_chunk(&msgs);
+        let opts = RunOpts { close_stdin: true, timeout_ms: super::c18::WATCHDOG_MS, read_delay_ms: 0 };
+        let mut o = session::run(&chunks, &opts);
+        let mut tries = 1;
+        while o.timed_out && tries < 3 {
+            o = session::run(&chunks, &opts);
+            tries += 1;
+        }
+        let detail = |extra: Value| json!({ "text": case.text, "client_capabilities": case.caps, "extra": extra, "stderr": o.stderr.chars().take(300).collect::<String>() });
+        if o.timed_out {
+            r.fail("watchdog", "the server does not terminate (3 attempts)", detail(json!(null)));
+            return r;
+        }
+        let responses = o.responses();
+        let find = |id: i64| responses.iter().find(|x| x["id"].as_i64() == Some(id)).cloned();
+        let (Some(init), Some(resp)) = (find(1), find(2)) else {
+            r.fail("no-response", format!("initialize or the semantic tokens request got no response (exit status {:?})", o.exit_code), detail(json!(null)));
+            return r;
+        };
+        let legend = &init["result"]["capabilities"]["semanticTokensProvider"]["legend"];
+        let strings = |v: &Value| v.as_array().map(|a| a.iter().filter_map(|x| x.as_str().map(|x| x.to_string())).collect::<Vec<_>>());
+        let (Some(types), Some(mods)) = (strings(&legend["tokenTypes"]), strings(&legend["tokenModifiers"])) else {
+            r.fail("no-legend", "the initialize response announces no semantic tokens legend", detail(json!({ "initialize": init.to_string().chars().take(600).collect::<String>() })));
+            return r;
+        };
+        let Some(data) = resp["result"]["data"].as_array() else {
+            r.fail(
+                "malformed-result",
+                format!("the result of semanticTokens/full has no `data` array (SemanticTokens.data is required): {}", resp.to_string().chars().take(200).collect::<String>()),
+                detail(json!(null)),
+            );
+            return r;
+        };
+        let nums: Vec<u32> = data.iter().filter_map(|x| x.as_u64().map(|x| x as u32)).collect();
+        if nums.len() != data.len() || nums.len() % 5 != 0 {
+            r.fail("malformed-stream", format!("`data` has {} entries, {} of them unsigned integers (must be a multiple of 5)", data.len(), nums.len()), detail(json!(null)));
+            return r;
+        }
+        let st: Vec<SemanticToken> = nums.chunks(5).map(|c| SemanticToken { delta_line: c[0], delta_start: c[1], length: c[2], token_type: c[3], token_modifiers_bitset: c[4] }).collect();
+        let toks = match decode_tokens(&st, &types, &mods) {
+            Ok(t) => t,
+            Err(e) => {
+                r.fail("malformed-stream", format!("{} (legend announced to this client: {:?} / {:?})", e, types, mods), detail(json!(null)));
+                return r;
+            }
+        };
+        let lexed = reflex::lex(&case.text);
+        if let Err(e) = well_formed(&case.text, &toks, &lexed) {
+            r.fail("malformed-tokens", format!("{} (legend announced to this client: {:?})", e, types), detail(json!(null)));
+            return r;
+        }
+        if let Some((prog, rendered, laid)) = &case.valid {
+            check_classification(prog, rendered, laid, &toks, &mut r);
+        }
+        r.nontrivial = case.caps_label == "subset-of-standard-types" || toks.is_empty();
+        if toks.is_empty() {
+            r.label("no-token-classified");
+        }
+        r
+    }
+    fn describe(&self, bytes: &[u8]) -> Value {
+        let c = decode_legend_case(bytes);
+        json!({ "text": c.text, "client_capabilities": c.caps })
+    }
+}
+
 pub const E2E: super::e2e::EndToEnd = super::e2e::EndToEnd { part: "end-to-end-binary-vs-handler", methods: &["textDocument/semanticTokens/full"] };
 
 pub fn checks() -> Vec<Box<dyn Check>> {
-    vec![Box::new(AnyDocument), Box::new(Classification), Box::new(E2E)]
+    vec![Box::new(AnyDocument), Box::new(Classification), Box::new(E2E), Box::new(AnnouncedLegend)]
 }
 
 pub fn run(ctx: &Ctx) -> i32 {
@@ -285,10 +424,11 @@ pub fn run(ctx: &Ctx) -> i32 {
         run_pbt(ctx, &Classification, ctx.n(20_000, 300_000)),
     ];
     parts.push(run_pbt(ctx, &E2E, ctx.n(400, 8_000)));
+    parts.push(run_pbt(ctx, &AnnouncedLegend, ctx.n(1_200, 30_000)));
     finish(
         ctx,
         parts,
-        "part 1: any document (valid, damaged, token soup, Unicode, empty): the delta-encoded stream decodes against the announced legend to strictly increasing, non-overlapping tokens, each starting at and as long (UTF-16 units) as one lexical token of an independent lexer; keywords, numbers, comments carry their lexical class; part 2: well-typed programs in any layout: every keyword, number, comment and identifier is reported, identifiers with the kind of the entity they are bound to by construction (type / function / parameter / variable) and the declaration modifier exactly on declaring occurrences; non-trivial = >= 3 tokens in a broken or commented document (part 1), >= 2 declarations with comments or several lines (part 2); distinct = distinct text",
+        "part 1: any document (valid, damaged, token soup, Unicode, empty): the delta-encoded stream decodes against the announced legend to strictly increasing, non-overlapping tokens, each starting at and as long (UTF-16 units) as one lexical token of an independent lexer; keywords, numbers, comments carry their lexical class; part 2: well-typed programs in any layout: every keyword, number, comment and identifier is reported, identifiers with the kind of the entity they are bound to by construction (type / function / parameter / variable) and the declaration modifier exactly on declaring occurrences; part 3 (real binary): clients announcing no / all standard / a random subset of semantic token types and modifiers; the `data` of the response (required member, multiple of 5 unsigned integers) is decoded against the legend of the server's own initialize response and must pass parts 1 and 2; a fifth of the documents are blank, punctuation-only or arbitrary; non-trivial = >= 3 tokens in a broken or commented document (part 1), >= 2 declarations with comments or several lines (part 2); distinct = distinct text",
         &[
             "a comment's length is that of `//` plus its text, without the line terminator",
             "global-scope occurrences (type names in parameter types, the procedure's own name) whose name is also a local of the enclosing procedure are a separately signed class (shadowed-global-occurrence)",
